@@ -82,7 +82,7 @@ def trimmed_mean(J: np.ndarray, b: int) -> np.ndarray:
 
 def krum_scores(J: np.ndarray, f: int) -> np.ndarray:
     m = J.shape[0]
-    d = np.sqrt(((J[:, None, :] - J[None, :, :]) ** 2).sum(-1))
+    d = np.stack([np.sqrt(((J - J[i]) ** 2).sum(-1)) for i in range(J.shape[0])])  # (memory m n, not m^2 n)
     k = m - f - 2
     scores = np.empty(m)
     for i in range(m):
